@@ -517,7 +517,7 @@ impl Check for C02 {
         for (name, _) in &t.roots {
             queries.push(json!({"q":"schema","parser":name}));
             for c in &case.cfgs {
-                queries.push(json!({"q":"schemaCtx","template":c.template,"container":c.container,"calls":[name]}));
+                queries.push(json!({"q":"schemaCtx","template":c.template,"container":c.container,"calls":[name, name]}));
             }
         }
         let per_root = 1 + case.cfgs.len();
@@ -549,6 +549,22 @@ impl Check for C02 {
             for (_, th, _) in &printed {
                 threw_all &= *th;
                 threw_any |= *th;
+            }
+            // a context that refused a type once refuses it again: the same parser printed a second time into the same
+            // context must not come back with a schema (whose $ref would point at a definition that was never stored)
+            for (m, _, raw) in &printed {
+                if m == "flat" {
+                    continue;
+                }
+                let (first, second) = (&raw["returned"][0], &raw["returned"][1]);
+                if first.get("threw").is_some() && second.get("r").is_some() {
+                    out.mismatch(
+                        ctx,
+                        "c02_refused_then_printed",
+                        format!("{}: schemaWithContext threw for {} and, called again on the same context, returned a schema", name, name),
+                        json!({"program": t.program, "parser": name, "mode": m, "first": first, "second": second, "exported": raw["exported"]}),
+                    );
+                }
             }
             // ---- (e) unprintable leaves must throw, printable types must print
             if unp {
